@@ -11,10 +11,36 @@ The argument forms mirror the generators of C01-C14 / C17 / C18.
 import numpy as np
 
 
+def _freeze(x):
+    """comparable deep image of an argument object (ndarray, DimArray, Axis, Axes, list, dict, scalar)"""
+    if isinstance(x, np.ndarray):
+        return ("nd", str(x.dtype), x.shape, repr(x.tolist()))
+    if hasattr(x, "axes") and hasattr(x, "values") and hasattr(x, "dims"):
+        return ("da", _freeze(np.asarray(x.values)), tuple(x.dims), tuple(_freeze(ax) for ax in x.axes), repr(sorted(dict(x.attrs).items(), key=str)))
+    if hasattr(x, "values") and hasattr(x, "name"):
+        return ("axis", x.name, _freeze(np.asarray(x.values)), repr(sorted(dict(x.attrs).items(), key=str)))
+    if isinstance(x, dict):
+        return ("dict", tuple((repr(k), _freeze(v)) for k, v in x.items()))
+    if isinstance(x, (list, tuple)) or type(x).__name__ == "Axes":
+        return (type(x).__name__, tuple(_freeze(v) for v in x))
+    return ("scalar", repr(x))
+
+
 class Ctx(object):
     def __init__(self, da, a, b, k, f=None):
         self.da, self.a, self.b, self.k = da, a, b, k
         self.f = f if f is not None else a.flatten(a.dims[:2], insert=0)   # grouped axis whose members are a's Axis objects
+        self._args = []
+
+    def arg(self, x):
+        """register a secondary argument (mask, label array, Axis, template...): it must come back unchanged (C15)"""
+        self._args.append((x, _freeze(x)))
+        return x
+
+    def changed_args(self):
+        out = [type(x).__name__ for x, f in self._args if _freeze(x) != f]
+        self._args = []
+        return out
 
     def lab(self, d, j=0):
         l = self.a.axes[d].values
@@ -49,8 +75,8 @@ CATALOGUE = [
     ("getitem list last dim", "keeps", lambda c: [c.last], lambda c: c.a.take([c.lab(c.last), c.lab(c.last, 1)], axis=c.last)),
     ("getitem tuple", "keeps", lambda c: [c.first], lambda c: c.a[[c.lab(0)], c.lab(1)]),
     ("getitem label slice", "keeps", lambda c: [c.first], lambda c: c.a.take(slice(c.lab(0), None), axis=0)),
-    ("getitem mask 1-d", "keeps", lambda c: [c.first], lambda c: c.a[_mask_first(c)]),
-    ("take dict", "keeps", None, lambda c: c.a.take({c.last: c.lab(c.last)})),
+    ("getitem mask 1-d", "keeps", lambda c: [c.first], lambda c: c.a[c.arg(_mask_first(c))]),
+    ("take dict", "keeps", None, lambda c: c.a.take(c.arg({c.last: c.lab(c.last)}))),
     ("loc", "keeps", None, lambda c: c.a.loc[c.lab(0)]),
     ("sel", "keeps", None, lambda c: c.a.sel(**{c.first: c.lab(0)})),
     ("ix", "keeps", None, lambda c: c.a.ix[c.k % c.a.shape[0]]),
@@ -59,19 +85,24 @@ CATALOGUE = [
     ("isel", "keeps", None, lambda c: c.a.isel(**{c.last: 0})),
     ("nloc", "keeps", None, lambda c: c.a.nloc[float(c.a.axes[0].values[0]) + 0.1]),
     ("take keepdims", "keeps", None, lambda c: c.a.take(c.lab(0), axis=0, keepdims=True)),
-    ("getitem N-d mask", None, None, lambda c: c.a[c.a.values > np.nanmean(c.a.values)]),
-    ("compress", None, None, lambda c: c.a.compress(c.a.values > np.nanmean(c.a.values))),
-    ("take_axis label", "keeps", lambda c: [c.first], lambda c: c.a.take_axis([c.lab(0), c.lab(0, 1)], axis=0)),
-    ("take_axis position", "keeps", lambda c: [c.first], lambda c: c.a.take_axis([c.k % c.a.shape[0], 0], axis=0, indexing="position")),
-    ("compress_axis", "keeps", lambda c: [c.first], lambda c: c.a.compress_axis(_mask_first(c), axis=0)),
+    ("getitem N-d mask", None, None, lambda c: c.a[c.arg(c.a.values > np.nanmean(c.a.values))]),
+    ("compress", None, None, lambda c: c.a.compress(c.arg(c.a.values > np.nanmean(c.a.values)))),
+    ("take_axis label", "keeps", lambda c: [c.first], lambda c: c.a.take_axis(c.arg([c.lab(0), c.lab(0, 1)]), axis=0)),
+    ("take_axis position", "keeps", lambda c: [c.first], lambda c: c.a.take_axis(c.arg(np.array([c.k % c.a.shape[0], 0])), axis=0, indexing="position")),
+    ("compress_axis", "keeps", lambda c: [c.first], lambda c: c.a.compress_axis(c.arg(_mask_first(c)), axis=0)),
     ("iter", None, None, lambda c: list(c.a.iter(0))),
     ("to_list", None, None, lambda c: c.a.to_list()),
     # ---- assignment on a copy -----------------------------------------------------------------------------------
     ("put inplace=False", None, None, lambda c: c.a.put(c.lab(0), -1.0, inplace=False)),
     ("put cast inplace=False", None, None, lambda c: c.a.put(c.lab(0), "x", inplace=False, cast=True)),
-    ("put mask inplace=False", None, None, lambda c: c.a.put(c.a.values > np.nanmean(c.a.values), 0.0, inplace=False)),
+    ("put mask inplace=False", None, None, lambda c: c.a.put(c.arg(c.a.values > np.nanmean(c.a.values)), 0.0, inplace=False)),
     ("fillna", None, None, lambda c: c.a.fillna(0.0)),
     ("setna", None, None, lambda c: c.a.setna(c.a.values.ravel()[0])),
+    ("setna list", None, None, lambda c: c.a.setna(c.arg([c.a.values.ravel()[0], c.a.values.ravel()[-1]]))),
+    ("setna DimArray mask, value", None, None, lambda c: c.a.setna([c.arg(c.a > np.nanmean(c.a.values)), c.a.values.ravel()[0]])),
+    ("setna value, ndarray mask, list", None, None, lambda c: c.a.setna((c.arg(c.a.values > np.nanmean(c.a.values)), c.a.values.ravel()[0], [c.a.values.ravel()[-1]]))),
+    ("setna mask", None, None, lambda c: c.a.setna(c.arg(c.a.values > np.nanmean(c.a.values)))),
+    ("fillna inplace=False", None, None, lambda c: c.a.fillna(-1, inplace=False)),
     ("set_axis copy", None, None, lambda c: c.a.set_axis(np.arange(c.a.shape[0]) + 100, axis=0, inplace=False)),
     ("set_axis name copy", None, None, lambda c: c.a.set_axis(name="renamed", axis=0, inplace=False)),
     # ---- arithmetic / comparisons -------------------------------------------------------------------------------
@@ -83,7 +114,7 @@ CATALOGUE = [
     ("2-a", "drops", None, lambda c: 2 - c.a),
     ("2/a", "drops", None, lambda c: 2 / c.a),
     ("a**2", "drops", None, lambda c: c.a ** 2),
-    ("a+ndarray", "drops", None, lambda c: c.a + np.ones(c.a.shape)),
+    ("a+ndarray", "drops", None, lambda c: c.a + c.arg(np.ones(c.a.shape))),
     ("-a", "drops", None, lambda c: -c.a),
     ("a>1", "drops", None, lambda c: c.a > 1),
     ("a<=a", "drops", None, lambda c: c.a <= c.a),
@@ -112,7 +143,7 @@ CATALOGUE = [
     ("median all dims tuple", None, None, lambda c: c.a.median(axis=tuple(c.a.dims))),
     ("median None", None, None, lambda c: c.a.median()),
     ("sum None", None, None, lambda c: c.a.sum()),
-    ("percentile", None, None, lambda c: c.da.percentile(c.a, [10, 50], axis=c.axk())),
+    ("percentile", None, None, lambda c: c.da.percentile(c.a, c.arg([10, 50]), axis=c.axk())),
     ("percentile scalar", None, None, lambda c: c.da.percentile(c.a, 50, axis=c.a.dims[c.axk()])),
     # ---- along-axis transforms ----------------------------------------------------------------------------------
     ("cumsum", "keeps", None, lambda c: c.a.cumsum(axis=c.axk())),
@@ -130,9 +161,9 @@ CATALOGUE = [
     ("swapaxes", "keeps", lambda c: list(c.a.dims), lambda c: c.a.swapaxes(0, c.a.ndim - 1)),
     ("rollaxis", "keeps", lambda c: list(c.a.dims), lambda c: c.a.rollaxis(c.a.ndim - 1)),
     ("newaxis", "keeps", lambda c: list(c.a.dims), lambda c: c.a.newaxis("new", pos=c.k % (c.a.ndim + 1))),
-    ("newaxis values", "keeps", lambda c: list(c.a.dims), lambda c: c.a.newaxis("new", values=np.array([1, 2]), pos=c.k % (c.a.ndim + 1))),
+    ("newaxis values", "keeps", lambda c: list(c.a.dims), lambda c: c.a.newaxis("new", values=c.arg(np.array([1, 2])), pos=c.k % (c.a.ndim + 1))),
     ("squeeze", "keeps", None, lambda c: c.a.take([c.lab(0)], axis=0).squeeze()),
-    ("repeat", "keeps", None, lambda c: c.a.take([c.lab(0)], axis=0).repeat(np.array([7, 8]), axis=0)),
+    ("repeat", "keeps", None, lambda c: c.a.take([c.lab(0)], axis=0).repeat(c.arg(np.array([7, 8])), axis=0)),
     ("broadcast", "keeps", lambda c: list(c.a.dims), lambda c: c.a.broadcast(c.a.newaxis("new", values=np.array([1, 2])))),
     ("broadcast_arrays", None, None, lambda c: c.da.broadcast_arrays(c.a, c.b.take_axis([0], axis=0, indexing="position").squeeze(c.b.dims[0]) if c.b.ndim > 1 else c.a)),
     ("flatten", "keeps", None, lambda c: c.a.flatten()),
@@ -157,19 +188,19 @@ CATALOGUE = [
     ("reindex_axis", "keeps", lambda c: [c.first], lambda c: c.a.reindex_axis([c.lab(0), c.lab(0, 1)], axis=0)),
     ("reindex_axis missing", "keeps", lambda c: [c.first], lambda c: c.a.reindex_axis(list(c.a.labels[0][:1]) + [99], axis=0)),
     ("reindex_axis method", "keeps", lambda c: [c.first], lambda c: c.a.reindex_axis([float(c.a.labels[0][0]) + 0.1], axis=0, method="left")),
-    ("reindex_axis Axis", "keeps", lambda c: [c.first], lambda c: c.a.reindex_axis(c.da.Axis(c.a.labels[0][::-1].copy(), c.first))),
+    ("reindex_axis Axis", "keeps", lambda c: [c.first], lambda c: c.a.reindex_axis(c.arg(c.da.Axis(c.a.labels[0][::-1].copy(), c.first)))),
     ("reindex_axis Axis missing", "keeps", lambda c: [c.first],
-     lambda c: c.a.reindex_axis(c.da.Axis(np.concatenate([c.a.labels[0][:1], [c.a.labels[0].max() + 7]]), c.first))),
+     lambda c: c.a.reindex_axis(c.arg(c.da.Axis(np.concatenate([c.a.labels[0][:1], [c.a.labels[0].max() + 7]]), c.first)))),
     ("reindex_axis array missing", "keeps", lambda c: [c.first],
-     lambda c: c.a.reindex_axis(np.concatenate([[c.a.labels[0].min() - 3], c.a.labels[0][::-1]]), axis=c.first)),
+     lambda c: c.a.reindex_axis(c.arg(np.concatenate([[c.a.labels[0].min() - 3], c.a.labels[0][::-1]])), axis=c.first)),
     ("reindex_like", "keeps", None, lambda c: c.a.reindex_like(c.b)),
     ("sort_axis", "keeps", None, lambda c: c.a.sort_axis(c.axk())),
     ("sort_axis key", "keeps", None, lambda c: c.a.sort_axis(0, key=lambda x: -x)),
     ("dropna", "keeps", None, lambda c: c.a.dropna(axis=c.axk())),
     ("dropna minvalid", "keeps", None, lambda c: c.a.dropna(axis=c.axk(), minvalid=1)),
-    ("interp_axis", "keeps", None, lambda c: c.a.interp_axis(_interp_pts(c), axis=0)),
+    ("interp_axis", "keeps", None, lambda c: c.a.interp_axis(c.arg(np.array(_interp_pts(c))), axis=0)),
     ("interp_axis fills", "keeps", None, lambda c: c.a.interp_axis(_interp_pts(c), axis=c.first, left=-1.0, right=-2.0)),
-    ("interp_like", "keeps", None, lambda c: c.a.interp_like(c.da.Axes([c.da.Axis(np.array(_interp_pts(c)), c.first)]))),
+    ("interp_like", "keeps", None, lambda c: c.a.interp_like(c.arg(c.da.Axes([c.da.Axis(np.array(_interp_pts(c)), c.first)])))),
     # ---- aligning and joining -----------------------------------------------------------------------------------
     ("align", None, None, lambda c: c.da.align([c.a, c.b])),
     ("align sort", None, None, lambda c: c.da.align([c.a, c.b], sort=True)),
@@ -177,10 +208,10 @@ CATALOGUE = [
     ("align inner sort", None, None, lambda c: c.da.align([c.a, c.b], join="inner", sort=True)),
     ("align axis sort", None, None, lambda c: c.da.align([c.a, c.b], axis=c.first, sort=True)),
     ("align one input sort", None, None, lambda c: c.da.align([c.a], sort=True)),
-    ("align three", None, None, lambda c: c.da.align([c.a, c.b, c.a.ix[0]], sort=True)),
+    ("align three", None, None, lambda c: c.da.align(c.arg([c.a, c.b, c.a.ix[0]]), sort=True)),
     ("stack", "drops", None, lambda c: c.da.stack([c.a, c.a], axis="s")),
     ("stack align", "drops", None, lambda c: c.da.stack([c.a, c.a.sort_axis(0)], axis="s", align=True, sort=True)),
-    ("stack dict keys", "drops", None, lambda c: c.da.stack({"u": c.a, "v": c.a}, axis="s")),
+    ("stack dict keys", "drops", None, lambda c: c.da.stack(c.arg({"u": c.a, "v": c.a}), axis="s")),
     ("stack transposed", "drops", None, lambda c: c.da.stack([c.a, c.a.transpose(*c.a.dims[::-1])], axis="s")),
     ("concatenate", "drops", None, lambda c: c.da.concatenate([c.a, c.a], axis=c.axk())),
     ("concatenate align", "drops", None, lambda c: c.da.concatenate([c.a, c.a.sort_axis(c.a.ndim - 1)], axis=0, align=True, sort=True)),
